@@ -89,15 +89,30 @@ Proof. intros rt [v|k]; cbn; [rewrite obs_rn|]; reflexivity. Qed.
 (* ---- the standard builtins do not look at table names ---------------------------------------------- *)
 Lemma sum_ints_rn : forall rt vs, sum_ints (map (rn_val rt) vs) = sum_ints vs.
 Proof.
-  intros rt vs. induction vs as [|v vs IH]; [reflexivity|]. destruct v; cbn; try reflexivity. rewrite IH. reflexivity.
+  intros rt vs. induction vs as [|v vs IH]; [reflexivity|]. destruct v; cbn; rewrite IH; reflexivity.
+Qed.
+
+(* Python == looks at table names: equivariant for INJECTIVE renamings of table names *)
+Lemma val_eqb_rn : forall rt, (forall a b, name_eqb (rt a) (rt b) = name_eqb a b) ->
+  forall a b, val_eqb (rn_val rt a) (rn_val rt b) = val_eqb a b.
+Proof.
+  intros rt Hinj. apply (val_ind' (fun a => forall b, val_eqb (rn_val rt a) (rn_val rt b) = val_eqb a b)).
+  - intro b. destruct b; reflexivity.
+  - intros n b. destruct b; reflexivity.
+  - intros s b. destruct b; reflexivity.
+  - intros t r b. destruct b; try reflexivity. cbn. rewrite Hinj. reflexivity.
+  - intros t rs b. destruct b; try reflexivity. cbn. rewrite Hinj. reflexivity.
+  - intros vs HF b. destruct b as [| | | | |ws]; try reflexivity. cbn [rn_val val_eqb]. revert ws.
+    induction HF as [|v vs Hv _ IH]; intros ws; destruct ws as [|w ws]; try reflexivity.
+    cbn [map]. rewrite Hv, IH. reflexivity.
 Qed.
 
 Lemma std_prim1_nat : forall rt f v, std_prim1 f (rn_val rt v) = rn_res rt (std_prim1 f v).
 Proof.
   intros rt f v. unfold std_prim1.
   destruct (f =? 0). { destruct v; cbn; try reflexivity. rewrite map_length. reflexivity. }
-  destruct (f =? 1). { destruct v; cbn; try reflexivity. rewrite sum_ints_rn. destruct (sum_ints vs); reflexivity. }
-  destruct (f =? 2). { destruct v; cbn; try reflexivity. rewrite !map_map. reflexivity. }
+  destruct (f =? 1). { destruct v; cbn; try reflexivity. rewrite sum_ints_rn. reflexivity. }
+  destruct (f =? 2). { destruct v; cbn; try reflexivity; rewrite !map_map; reflexivity. }
   destruct (f =? 4). { cbn. destruct v as [| | | | |vs]; try reflexivity. destruct vs; reflexivity. }
   reflexivity.
 Qed.
@@ -105,12 +120,13 @@ Qed.
 Lemma truthy_rn : forall rt v, truthy (rn_val rt v) = truthy v.
 Proof. intros rt v. destruct v as [| | | | |vs]; try reflexivity. destruct vs; reflexivity. Qed.
 
-Lemma std_prim2_nat : forall rt f a b, std_prim2 f (rn_val rt a) (rn_val rt b) = rn_res rt (std_prim2 f a b).
+Lemma std_prim2_nat : forall rt, (forall a b, name_eqb (rt a) (rt b) = name_eqb a b) ->
+  forall f a b, std_prim2 f (rn_val rt a) (rn_val rt b) = rn_res rt (std_prim2 f a b).
 Proof.
-  intros rt f a b. unfold std_prim2.
+  intros rt Hinj f a b. unfold std_prim2.
   destruct (f =? 0). { destruct a, b; cbn; try reflexivity. rewrite map_app. reflexivity. }
-  destruct (f =? 1). { destruct a, b; reflexivity. }
-  destruct (f =? 2). { destruct a, b; reflexivity. }
+  destruct (f =? 1). { rewrite (val_eqb_rn rt Hinj). reflexivity. }
+  destruct (f =? 2). { destruct a, b; try reflexivity. cbn. rewrite Hinj. destruct (name_eqb t t0); reflexivity. }
   destruct (f =? 3). { rewrite truthy_rn. destruct (truthy a); reflexivity. }
   reflexivity.
 Qed.
